@@ -262,6 +262,74 @@ def derived_schemas(s2: int, s3: int, branch: int) -> bool:
     return stat.operations.selected == len(_labels(third)) and stat.operations.total == 4
 
 
+
+# ---------------------------------------------------------------------------------------------------------------
+# filters see the operation with its references resolved; link counts follow the selection
+
+from schemathesis.filters import expression_to_filter_function
+
+
+def _lk(op_id):
+    return {"operationId": op_id}
+
+
+RAW_REF = {"openapi": "3.0.2", "info": {"title": "t", "version": "1"},
+           "components": {"parameters": {"Admin": {"name": "X-Admin-Token", "in": "header", "schema": {"type": "string"}}}},
+           "paths": {"/a": {"get": {"operationId": "getA", "responses": {"200": {"description": "OK", "links": {"toAdmin": _lk("delAdmin"), "toB": _lk("postB")}}}}},
+                     "/admin": {"delete": {"operationId": "delAdmin", "parameters": [{"$ref": "#/components/parameters/Admin"}],
+                                           "responses": {"200": {"description": "OK", "links": {"toA": _lk("getA")}}}}},
+                     "/b": {"post": {"operationId": "postB", "parameters": [{"name": "X-Admin-Token", "in": "header", "schema": {"type": "string"}}],
+                                     "responses": {"200": {"description": "OK"}}}}}}
+BASE_REF = schemathesis.openapi.from_dict(RAW_REF)
+REF_LABELS = {"GET /a": ("getA", False), "DELETE /admin": ("delAdmin", True), "POST /b": ("postB", True)}  # label -> (operationId, first parameter is X-Admin-Token)
+REF_LINKS = [("GET /a", "delAdmin"), ("GET /a", "postB"), ("DELETE /admin", "getA")]
+_BY_NAME = expression_to_filter_function('/parameters/0/name == "X-Admin-Token"')
+REF_STEPS = [("none", None), ("exclude", {"func": _BY_NAME}), ("include", {"func": _BY_NAME}), ("exclude", {"method": "DELETE"}), ("include", {"path": "/a"}),
+             ("exclude", {"operation_id": "postB"}), ("include", {"method_regex": "(?i)get|delete"})]
+
+
+def _ref_keep(label, kind, kw) -> bool:
+    op_id, admin = REF_LABELS[label]
+    method, path = label.split(" ")
+    if "func" in kw:
+        hit = admin
+    elif "method" in kw:
+        hit = method == kw["method"]
+    elif "path" in kw:
+        hit = path == kw["path"]
+    elif "operation_id" in kw:
+        hit = op_id == kw["operation_id"]
+    else:
+        hit = method in ("GET", "DELETE")
+    return hit if kind == "include" else not hit
+
+
+def resolved_filters(s1: int, s2: int) -> bool:
+    """
+    pre: 0 <= s1 < len(REF_STEPS) and 0 <= s2 < len(REF_STEPS) and (s1 != s2 or s1 == 0) and not (s1 in (1, 2) and s2 in (1, 2))
+    post: _
+    """
+    schema, includes, excludes = BASE_REF, [], []
+    for idx in (s1, s2):
+        kind, kw = pick(REF_STEPS, idx)
+        if kind == "none":
+            continue
+        schema = getattr(schema, kind)(*([kw["func"]] if "func" in kw else []), **({} if "func" in kw else kw))
+        (includes if kind == "include" else excludes).append(kw)
+    # selected = matches at least one include (or there are none) and no exclude
+    want = [label for label in REF_LABELS if (not includes or any(_ref_keep(label, "include", kw) for kw in includes)) and all(_ref_keep(label, "exclude", kw) for kw in excludes)]
+    offered = sorted(r.ok().label for r in schema.get_all_operations())
+    if offered != sorted(want):
+        return False  # a filter on a parameter name applies whether the parameter is written inline or through $ref
+    stat = schema.statistic
+    if stat.operations.total != 3 or stat.operations.selected != len(want):
+        return False  # the counts shown agree with what is offered
+    selected_ids = {REF_LABELS[label][0] for label in want}
+    links = [1 for source, target in REF_LINKS if source in want and target in selected_ids]
+    # a link is counted as selected only when both its source and its target operation are
+    return stat.links.total == 3 and stat.links.selected == len(links)
+
+
 def clone_independence(n_inc: int, n_exc: int, add_include: bool, k: int) -> bool:
     """
     pre: 0 <= n_inc <= 2 and 0 <= n_exc <= 2 and 0 <= k <= 2
@@ -385,6 +453,10 @@ OBLIGATIONS = [
                                                            "schemathesis.specs.openapi.schemas.BaseOpenAPISchema._measure_statistic"],
        params=range(6), param_names=["first step: %s %s" % st for st in STEPS],
        symbolic="second and third filter steps (6 kinds) and from which earlier schema the third is derived", bounds="3 derivation steps over a 4-operation document", path_timeout=60),
+    Ob(fn="resolved_filters", clause="filters judge the operation with its local references resolved (a parameter-name expression applies to inline and $ref'd parameters alike); the selected/total operation and link counts agree with what is offered (a link counts only when its source and target are selected)",
+       timeout=300, functions=["schemathesis.specs.openapi.schemas.BaseOpenAPISchema.get_all_operations", "schemathesis.specs.openapi.schemas.BaseOpenAPISchema._should_skip",
+                               "schemathesis.specs.openapi.schemas.BaseOpenAPISchema._measure_statistic", "schemathesis.filters.expression_to_filter_function"] + _FF[:4],
+       symbolic="two successive derivation steps out of 7 (none, include/exclude by parameter-name expression, method, path, operationId, method regex)", bounds="7 x 7 chains over a 3-operation document with 3 links and one $ref'd parameter"),
     Ob(fn="clone_independence", clause="same at the FilterSet level", timeout={"quick": 120, "thorough": 300}, functions=["schemathesis.filters.FilterSet.clone"] + _FF[:4],
        symbolic="number of include/exclude filters already present, kind of the filter added to the clone", bounds="0-2 includes, 0-2 excludes, 3 new filters"),
     Ob(fn="cli_into", clause="CLI --include-*/--exclude-* options select exactly the operations the flags describe (each flag occurrence one filter)",
